@@ -31,8 +31,7 @@ RULE = ("case = (n in 2..10, lower/upper bound vector with known grand coalition
         "resulting form is compared with both closed forms, which decides the identity for all real bound vectors of that n.")
 SHARDS = {"quick": 4, "thorough": 16}
 BUDGET = {"quick": 35, "thorough": 360}
-REQUIRED = ["identity_checks", "max_shapley_checks", "domination_checks", "unit_perturbations", "duck_typed_games",
-            "symbolic_executions"]
+REQUIRED = ["identity_checks", "max_shapley_checks", "domination_checks", "unit_perturbations", "duck_typed_games"]
 
 
 class DuckIncompleteGame:
@@ -94,7 +93,8 @@ def build_real(n, lo, up, known, style: int):
 
 def gen_vector(rng, n):
     size = 1 << n
-    fam = rng.choice(["int", "dyadic", "float", "per_size", "unit", "degenerate", "crossed", "some_known", "negative"])
+    fam = rng.choice(["int", "dyadic", "float", "per_size", "unit", "degenerate", "crossed", "some_known", "negative",
+                      "narrow_big", "narrow_small", "one_narrow"])
     known = [False] * size
     known[0] = known[size - 1] = True
     if fam == "int":
@@ -111,6 +111,17 @@ def gen_vector(rng, n):
             for s in range(size):
                 if rng.random() < 0.4:
                     known[s] = True
+    elif fam == "narrow_big":      # payoffs around 1e6 with unit gaps (narrow relative to the value scale)
+        lo = [1e6 * rng.randint(1, 9) + rng.randint(0, 50) for _ in range(size)]
+        up = [l + rng.randint(0, 2) for l in lo]
+    elif fam == "narrow_small":    # order-one payoffs with 1e-6 gaps
+        lo = [rng.uniform(-3, 3) for _ in range(size)]
+        up = [l + rng.random() * 1e-6 for l in lo]
+    elif fam == "one_narrow":      # a single coalition unknown to a 1e-7 fraction of its value
+        lo = [rng.uniform(1, 100) for _ in range(size)]
+        up = list(lo)
+        s1 = rng.randrange(1, size - 1) if size > 2 else 1
+        up[s1] = lo[s1] * (1 + 1e-7)
     elif fam == "per_size":
         w = [rng.randint(0, 4) for _ in range(n + 1)]
         lo = [float(rng.randint(-2, 2)) for _ in range(size)]
@@ -238,8 +249,12 @@ def symbolic_case(ctx, n: int) -> None:
     size = 1 << n
     try:
         form = compute_exploitability(SymbolicGame(n))
+        form.c
     except Exception as exc:
-        ctx.violation("exploitability-raised", f"symbolic bounds, n={n}: {type(exc).__name__}: {exc}", case)
+        # my own symbolic number type is not part of the property: an implementation that cannot digest it is only
+        # outside the reach of this sub-check (the numeric cases still decide)
+        ctx.count("symbolic_execution_unsupported")
+        ctx.seen("symbolic_unsupported_reasons", f"{type(exc).__name__}: {str(exc)[:80]}")
         return
     ctx.count("symbolic_executions")
     # reference coefficients: sum_S (u_S - l_S)/C(n,|S|); the grand coalition's u and l are the same symbol vN
